@@ -485,6 +485,12 @@ def _guard_atoms(test, local_names):
                     return ast.copy_location(ast.Name(id='_', ctx=ast.Load()), n)
                 return n
 
+            def visit_Attribute(self, n):
+                self.generic_visit(n)
+                if isinstance(n.value, ast.Name) and n.value.id == 'self' and n.attr.startswith('_') and not n.attr.startswith('__'):
+                    return ast.copy_location(ast.Attribute(value=n.value, attr='_A', ctx=n.ctx), n)      # which private field: not part of the guard's shape
+                return n
+
             def visit_Constant(self, n):
                 if not consts and isinstance(n.value, (int, float)) and not isinstance(n.value, bool):
                     return ast.copy_location(ast.Name(id='#', ctx=ast.Load()), n)
@@ -551,6 +557,12 @@ def _guard_atoms(test, local_names):
             continue
 
         class Sk(ast.NodeTransformer):
+            def visit_Attribute(self, n):
+                self.generic_visit(n)
+                if isinstance(n.value, ast.Name) and n.value.id == 'self' and n.attr.startswith('_'):
+                    return ast.Name(id='self._A', ctx=ast.Load())
+                return n
+
             def visit_Constant(self, n):
                 if isinstance(n.value, (int, float)) and not isinstance(n.value, bool):
                     return ast.Name(id='K', ctx=ast.Load())
@@ -593,8 +605,8 @@ def sibling_guards(run, rule, modules):
         fns = [(n, f) for n, f in dict.items(mi.functions)] + \
               [('%s.%s' % (cn, m.name), m) for cn, c in mi.classes.items() for m in c.body if isinstance(m, ast.FunctionDef)]
         for fname, f in fns:
-            local_names = {a.arg for a in f.args.posonlyargs + f.args.args + f.args.kwonlyargs} | \
-                          {t.id for st in ast.walk(f) for t in ast.walk(st) if isinstance(t, ast.Name) and isinstance(t.ctx, ast.Store)}
+            local_names = ({a.arg for a in f.args.posonlyargs + f.args.args + f.args.kwonlyargs} |
+                           {t.id for st in ast.walk(f) for t in ast.walk(st) if isinstance(t, ast.Name) and isinstance(t.ctx, ast.Store)}) - {'self', 'cls'}
             for st in ast.walk(f):
                 body_kind = None
                 test = None
@@ -603,7 +615,10 @@ def sibling_guards(run, rule, modules):
                     if isinstance(b, ast.Raise) and b.exc is not None:
                         body_kind = 'raise ' + (dotted(b.exc.func if isinstance(b.exc, ast.Call) else b.exc) or '?')
                     elif isinstance(b, ast.Expr) and isinstance(b.value, ast.Call):
-                        body_kind = 'call ' + (dotted(b.value.func) or '?')
+                        callee = dotted(b.value.func) or '?'
+                        import re as _re
+                        m_ = _re.match(r'^(self\._[a-z]+)_', callee)
+                        body_kind = 'call ' + (m_.group(1) + '*' if m_ else callee)
                     test = st.test
                 elif isinstance(st, ast.Assign) and len(st.targets) == 1 and isinstance(st.targets[0], ast.Name) and isinstance(st.value, ast.BoolOp) \
                         and len(st.value.values) == 2 and isinstance(st.value.values[0], ast.Name) and st.value.values[0].id == st.targets[0].id:
